@@ -975,11 +975,31 @@ class ExprMixin:
         return eval_dictcomp(self, e, st, fx)
 
     def ex_GeneratorExp(self, e, st, fx):
+        """A generator expression is a one-shot iterable (A-iter): it is evaluated like the list it would produce and
+        wrapped, so that consumers which need a re-iterable collection can say so."""
         from .loops import eval_listcomp
-        return eval_listcomp(self, e, st, fx)
+        try:
+            res = eval_listcomp(self, e, st, fx)
+        except OutOfReach:
+            return [Ev(st, OneShotV(None))]
+        return [Ev(r.st, OneShotV(r.val)) if r.exc is None else r for r in res]
 
     def ex_Starred(self, e, st, fx):
         raise OutOfReach("starred expression outside call")
+
+
+class OneShotV(V):
+    """one-shot iterable (generator / iterator): the first iteration yields `inner`'s items, later ones nothing"""
+    kind = "oneshot"
+
+    def __init__(self, inner):
+        self.inner = inner
+
+    def truth(self, E, st):
+        return True
+
+    def iter_items(self, E, st):
+        return E.iter_items(self.inner, st) if self.inner is not None else None
 
 
 class SetV(V):
